@@ -94,12 +94,10 @@ Definition vary_has (lines : list bytes) (member : bytes) : bool :=
   existsb (fun l => existsb (fun e => ieq (trim_ows e) member) (split_comma l)) lines.
 
 (* ---- transparency ---- *)
-(* a response body as it is sent: not coded, the complete / incomplete output of a coder, or the output of a coder
-   from which pieces may be missing or misplaced (nothing can be said about what it decodes to) *)
+(* a response body as it is sent: not coded, or the complete / incomplete output of a coder *)
 Inductive wire :=
 | WPlain (b : bytes)
-| WCoded (k : coding) (payload : bytes) (complete : bool)
-| WLossy (k : coding) (payload : bytes).
+| WCoded (k : coding) (payload : bytes) (complete : bool).
 
 Section Codec.
   (* the third-party codecs: trusted, and tested on the real libraries on every run *)
@@ -114,6 +112,5 @@ Section Codec.
     | WPlain b => Some b
     | WCoded k p true => Some (dec k p)
     | WCoded _ _ false => None
-    | WLossy _ _ => None
     end.
 End Codec.
